@@ -228,6 +228,9 @@ namespace c08
     }
 
     // BlockAllocator over the upstream: constant block size, every block tagged with an owner id
+    // --grow 1: every block is twice as large as the one before it (what growing_block_allocator does), so that the blocks of ONE
+    // allocator have different sizes (seed C08-N tested every block against the size of the newest one)
+    inline int g_vblk_grow = 0;
     struct vblk
     {
         std::size_t bs;
@@ -238,7 +241,10 @@ namespace c08
             void* p = UP().alloc(bs, owner);
             if (!p)
                 throw std::bad_alloc();
-            return fm::memory_block(p, bs);
+            fm::memory_block blk(p, bs);
+            if (g_vblk_grow)
+                bs *= 2;
+            return blk;
         }
         void deallocate_block(fm::memory_block blk) noexcept
         {
